@@ -347,9 +347,9 @@ func judgeFinal(defs []classDef, o obsMap) []finding {
 		if k := checkPrec(defs, i, pobs); k != "" {
 			add(pk, i, "precedence", k, "", fmt.Sprintf("class-precedence of %s (direct superclasses %s) = %s; canonical reading %s",
 				cname(i), supNames(defs[i].supers), pobs, precText(canonPrec(defs, i))))
-			if k == "not-ready" {
-				continue // the class cannot be instantiated; reported once (S3)
-			}
+			// S3: a class whose precedence list is wrong is reported once, as that; what its
+			// instances look like is judged in the orders and cases where the list is right.
+			continue
 		}
 		order := orderFor(defs, i, pobs)
 		listed := map[string]bool{}
@@ -414,7 +414,7 @@ func judgeFinal(defs []classDef, o obsMap) []finding {
 					fmt.Sprintf("(make-instance '%s%s): slot %s is %s, expected %s (%s; precedence %s)", cname(i), sigmaArgs(sigma), sl, got,
 						strings.Join(w.alts, " or "), w.src, precText(order)))
 				out[len(out)-1].got = gotClass(got)
-				out[len(out)-1].shared = w.src == "initarg" && shared == 2 && gotClass(got) != "initarg"
+				out[len(out)-1].shared = w.src == "initarg" && shared == 2 && (gotClass(got) == "unbound" || gotClass(got) == "initform")
 			}
 			if len(sigma) != 0 {
 				continue
